@@ -82,6 +82,15 @@ class _C06(Spec):
             jd = rng.randrange(-40_000_000, 40_000_001) if rng.random() < 0.7 else rng.randrange(2440000, 2470000)
             rreqs.append("byname conv %s %s %s %s %d" % (h, a, b, c, jd))
         bad = ["nosuch", "", "Gregorian", "julian ", "gregorian_prolepti", "hijri2"]
+        # particular day numbers: 0 and its neighbours (a zero that might be taken for "no value"), the ends of
+        # the domain, every calendar's epoch and the days around it — for every ordered pair of names
+        special = [0, 1, -1, 2, -40_000_000, 40_000_000, -39_999_999, 39_999_999, 1721426, 1721425, 1721058, 1721057,
+                   1948440, 1948439, 1948321, 1948320, 1724235, 1724234, 1749995, 1749994, 2440588, 2299161, 2299160, 255, 256, 65536]
+        for a in names:
+            for b in names:
+                c = rng.choice(names)
+                for jd in special:
+                    rreqs.append("byname conv M1,A0 %s %s %s %d" % (a, b, c, jd))
         for u in bad:
             for a in names:
                 for jd in (2440588, -1000000):
